@@ -30,7 +30,7 @@ template <class App> const sapp::Param<App> *find_param(const Space<App> &S, con
 }
 
 // which single lines of an own savefile are rejected when loaded alone: narrows the signature of a rejection
-template <class App> std::string culprit_kinds(const Space<App> &S, const File &f)
+template <class App> std::set<std::string> culprit_kinds(const Space<App> &S, const File &f)
 {
     std::set<std::string> kinds;
     for(size_t i = 0; i < f.msgs.size(); ++i) {
@@ -40,10 +40,8 @@ template <class App> std::string culprit_kinds(const Space<App> &S, const File &
         vp::transition();
         if(r != 1) { auto *p = find_param(S, f.paths[i]); kinds.insert((p ? p->kind : "unknown-path") + line_shape(f.msgs[i])); }
     }
-    if(kinds.empty()) return "only-in-combination";
-    std::string s;
-    for(auto &k : kinds) { if(!s.empty()) s += "+"; s += k; }
-    return s;
+    if(kinds.empty()) kinds.insert("only-in-combination");
+    return kinds;
 }
 
 template <class App> void check_state(const Space<App> &S, const Hist &h, bool full_negatives, uint64_t rot)
@@ -106,7 +104,7 @@ template <class App> void check_state(const Space<App> &S, const Hist &h, bool f
         int r = load(fresh, text);
         vp::transition();
         if(r != (int)n) {
-            if(r < 0) vp::violation("own-savefile-rejected|load_from_file|" + culprit_kinds(S, f), sid + "|load", "load_from_file returned " + std::to_string(r) + " for the application's own savefile: " + vp::show(text.substr(f.header.size(), 400)));
+            if(r < 0) { for(auto &k : culprit_kinds(S, f)) vp::violation("own-savefile-rejected|load_from_file|" + k, sid + "|load", "load_from_file returned " + std::to_string(r) + " for the application's own savefile: " + vp::show(text.substr(f.header.size(), 400))); }
             else vp::violation("load-count|load_from_file|" + std::string(App::name()), sid + "|load", "returned " + std::to_string(r) + ", file has " + std::to_string(n) + " message lines: " + vp::show(text.substr(f.header.size(), 400)));
             vp::outcome(std::string(App::name()) + (r < 0 ? ":own-file-rejected" : ":count-differs"));
         }
@@ -235,8 +233,8 @@ int main(int argc, char **argv)
 {
     vp::init(argc, argv, "C12");
     const bool T = vp::thorough();
-    run_app<sapp::Flat>(T ? 3 : 2, T ? 2 : 1, T ? 2 : 1);
-    run_app<sapp::Preset>(T ? 4 : 3, T ? 2 : 1, T ? 2 : 1);
-    run_app<sapp::Tree>(T ? 4 : 3, T ? 2 : 1, T ? 2 : 1);
+    run_app<sapp::Flat>(T ? 3 : 2, T ? 2 : 1, T ? 2 : 2);
+    run_app<sapp::Preset>(T ? 5 : 4, T ? 2 : 1, T ? 3 : 2);
+    run_app<sapp::Tree>(T ? 5 : 4, T ? 2 : 1, T ? 3 : 2);
     return vp::finish();
 }
